@@ -181,8 +181,14 @@ impl PropImpl for C19 {
     }
     fn decode(&self, _ctx: &mut Ctx, t: &mut Tape) -> Case {
         if t.chance(1, 6) {
-            let text = match t.below(6) {
+            let text = match t.below(7) {
                 0 => String::new(),
+                6 => {
+                    // an invisible character next to the marker: the first line is not the marker
+                    let c = *t.pick(&["\u{feff}", "\u{a0}", "\u{200b}", "\u{2060}", "\u{feff}\u{feff}", "\u{85}", "\u{c}"]);
+                    let body = if t.flag() { format!("\n\nx\n{}\n{}\n", B, E) } else { "\n\nx\n".to_string() };
+                    if t.flag() { format!("{}{}{}", c, M, body) } else { format!("{}{}{}", M, c, body) }
+                }
                 1 => format!(" {}\n\nx\n{}\n{}\n", M, B, E),
                 2 => format!("x\n{}\n\nx\n{}\n{}\n", M, B, E),
                 3 => format!("{} \n\nx\n{}\n{}\n", M, B, E),
@@ -225,6 +231,7 @@ impl PropImpl for C19 {
             Case::Unsigned(t) => {
                 ctx.label("unsigned");
                 ctx.label_if(t.is_empty(), "unsigned:empty");
+                ctx.label_if(t.lines().next().map(|l| l != M && l.trim_matches(|c: char| !c.is_ascii_graphic() && c != ' ') == M && !l.is_ascii()).unwrap_or(false), "unsigned:invisible-character-next-to-the-marker");
                 ctx.nontrivial = t.contains(M);
             }
             Case::Signed { headers, payload, signature, appended } => {
